@@ -176,6 +176,18 @@ def check_C(S, p):
             if t6.rc != base.rc or t6.out != base.out:
                 S.viol("C09:samples-file-eol", "[%s] samples file with %r line ends%s differs from --samples: rc %s stdout %r stderr %r" % (
                     tag, eol, "" if final else " and no final terminator", t6.rc, t6.out[:120], t6.err[:200]), dict(wit, replay=R.same(base, t6)))
+        # twin 7: an EMPTY line in the samples file (start, between entries, end). An empty line names no sample of the input, so the
+        # run may reject the file; if it accepts it, every entry before AND after the empty line still counts
+        for pos in sorted({0, len(body), rng.randint(1, max(1, len(body) - 1)), rng.randint(0, len(body))}):
+            lines7 = body[:pos] + [""] + body[pos:]
+            f7 = E.tmpfile(("\n".join(lines7) + "\n").encode(), ".samples")
+            t7 = cli.sfs(["create", "-S", f7], stdin=data)
+            S.count("C_twin_runs")
+            S.count("C_samples_file_empty_lines")
+            rejected = t7.rc != 0 and not t7.out and t7.err.strip() and not t7.panicked
+            if not rejected and (t7.rc != base.rc or t7.out != base.out):
+                S.viol("C09:samples-file-empty-line", "[%s] samples file with an empty line before entry %d of %d is neither rejected nor read completely: rc %s stdout %r stderr %r, all entries give %r" % (
+                    tag, pos, len(body), t7.rc, t7.out[:120], t7.err[:200], base.out[:120]), dict(wit, samples_file="\n".join(lines7), replay=R.same(base, t7) if t7.rc == 0 else None))
         sizes = G.pop_sizes([(s, q) for s, q in dict(smap).items()])
         S.case(key=digest([E.codes(cs), E.map_json(smap)]), nontrivial=len(exp.shape) >= 2 and (len(set(exp.shape)) > 1 or td != [int(x) for x in exp.cells]))
         if i == 0 and p["i"] == 0:
